@@ -108,6 +108,28 @@ fn long_doc() -> String {
     s
 }
 
+/// Chunked document whose first chunk holds multi-byte characters (so that character
+/// offsets and byte offsets of the later chunks differ), w0 early and w1 in the last chunk.
+fn long_doc_multibyte() -> String {
+    let mut s = String::new();
+    let mut i = 0;
+    while s.chars().count() < 3400 {
+        let word = if i == 3 {
+            w(0)
+        } else if s.chars().count() > 3100 && !s.contains(&w(1)) {
+            w(1)
+        } else if s.chars().count() < 900 {
+            format!("é{}ü", vocab_word(1300 + i))
+        } else {
+            vocab_word(1300 + i)
+        };
+        s.push_str(&word);
+        s.push_str(if (i + 1) % 7 == 0 { ". " } else { " " });
+        i += 1;
+    }
+    s
+}
+
 pub fn run(tier: Tier, replay_path: Option<String>) -> i32 {
     if let Some(p) = replay_path {
         return crate::h_run::replay(&p);
@@ -118,7 +140,7 @@ pub fn run(tier: Tier, replay_path: Option<String>) -> i32 {
         "C10",
         tier,
         "exploration",
-        &format!("one corpus of 6 documents (two scopes, tags, labels, a track, timestamps on two days, one chunked document, one document with the exact phrase) x every query AST of <= {max_ast} nodes over 9 leaves (two words, a phrase, tag:, label:, track:, uri:, scope:, date:[..]) with AND / implicit AND / OR / NOT, printed to text x request filters {{none, uri, scope}} x top_k {{1,3,10}} x snippet_chars {{0,80,200}}, after commit and after close+open; oracle per hit: frame exists and is active, an independent evaluator accepts the frame for the query, request uri/scope filters hold, hits <= top_k, ranks 1..n, document_text[range] == hit text, range inside chunk_range, document_text[chunk_range] == chunk_text; non-trivial = query with >= 1 hit; distinct = distinct (query, filters, top_k, snippet, stage)"),
+        &format!("one corpus of 7 documents (two scopes, tags, labels, a track, timestamps on two days, an ASCII chunked document, a chunked document whose first chunk holds multi-byte characters, one document with the exact phrase) x every query AST of <= {max_ast} nodes over 9 leaves (two words, a phrase, tag:, label:, track:, uri:, scope:, date:[..]) with AND / implicit AND / OR / NOT, printed to text x request filters {{none, uri, scope}} x top_k {{1,3,10}} x snippet_chars {{0,80,200}}, after commit and after close+open; oracle per hit: frame exists and is active, an independent evaluator accepts the frame for the query, request uri/scope filters hold, hits <= top_k, ranks 1..n, document_text[range] == hit text, range inside chunk_range, document_text[chunk_range] == chunk_text; non-trivial = query with >= 1 hit; distinct = distinct (query, filters, top_k, snippet, stage)"),
     );
     let docs = vec![
         json!({"text": format!("{} {} {}.", w(0), w(1), vocab_word(700)), "uri": "mv2://s1/d0", "ts": 10, "tags": ["xx"], "labels": ["yy"], "track": "tt"}),
@@ -126,6 +148,7 @@ pub fn run(tier: Tier, replay_path: Option<String>) -> i32 {
         json!({"text": format!("{} {} {} and more.", w(0), w(2), w(1)), "uri": "mv2://s2/d2", "ts": 20, "labels": ["yy"]}),
         json!({"text": format!("{} alone.", w(2)), "uri": "mv2://s2/d3", "ts": 90_000, "track": "tt"}),
         json!({"text": long_doc(), "uri": "mv2://s1/long", "ts": 90_040}),
+        json!({"text": long_doc_multibyte(), "uri": "mv2://s2/long-mb", "ts": 60, "tags": ["xx"]}),
         json!({"text": format!("Prefix sentence. Then {} {} appears. Suffix sentence with {} again far away from the first one, padded with several more words to be distant.", w(0), w(1), w(0)), "uri": "mv2://s2/d5", "ts": 50}),
     ];
     let all = asts(max_ast);
